@@ -142,6 +142,10 @@ def simple_pairs(key, D, rev):
         yield 'nested-in-itself', key + '>' + key, core + '>' + core
         yield 'nested-in-itself-deeper', key + '>p>' + key + '.x', core + '>p>' + (name + '.x' + own if rev else core + '.x')
     yield 'sibling-of-itself', key + '+' + key, core + tail + '+' + core + tail
+    # the same alias twice in one abbreviation, bare and with an attribute of its own, in both orders
+    withx = (name + '.x' + own if rev else core + '.x') + tail
+    yield 'bare-then-attributed', key + '+' + key + '.x', core + tail + '+' + withx
+    yield 'attributed-then-bare', key + '.x+' + key, withx + '+' + core + tail
 
 
 class Depth:
@@ -222,6 +226,28 @@ def check_user(table, start):
             if r1 != r2:
                 bad.append(('user-table:alias-differs-from-definition:%s' % ctx_name, dict(table=table, alias=a, definition=dd, alias_output=r1, definition_output=r2)))
     return bad, d.max
+
+
+# a definition that does not parse, reached through another alias: the alias fails like its definition written in place does
+# (a parse error of the library), it never yields a partial result with the inner name left as an element
+MALFORMED_INNER = ['x["', 'x[a="b', 'y{t', '(x', 'x)', 'x[a=b']       # the middle two are accepted leniently: then the results are equal
+MALFORMED_OUTER = ['kb', 'p>kb', 'kb+q', '(kb)*2', 'q>kb+r', 's.c>kb']
+
+
+def check_malformed():
+    out = []
+    for inner in MALFORMED_INNER:
+        for outer in MALFORMED_OUTER:
+            table = dict(ka=outer, kb=inner)
+            cfg = {'snippets': dict(table), 'options': {'output.format': False}}
+            for a in ('ka', 'p>ka', 'ka+q', '(ka)*2'):
+                r = ex(a, dict(cfg))
+                ref = ex(a.replace('ka', '(%s)' % outer), dict(cfg))
+                same = (r[:2] == ref[:2]) if (isinstance(r, tuple) and isinstance(ref, tuple)) else (r == ref)
+                if not same:
+                    out.append(('user-table:malformed-definition-behind-an-alias', dict(table=table, abbr=a, alias_result=r,
+                                definition_in_place=ref), dict(kind='malformed', table=table, abbr=a)))
+    return out
 
 
 # a call config that restates one variable and one option only: definitions are still resolved with the merged tables
@@ -311,6 +337,10 @@ def run_shard(shard, ctx, tier):
         return
     defs = BOUNDS[tier]['defs']
     table = None
+    if shard['a'] == 0:
+        for cls, d, case in check_malformed():
+            ctx.violation(cls, case, d)
+        ctx.evals += len(MALFORMED_OUTER) * len(MALFORMED_INNER) * 4
     for b_, c_ in itertools.product(defs, repeat=2):
         table = dict(ka=defs[shard['a']], kb=b_, kc=c_)
         for start in BOUNDS[tier]['start']:
@@ -341,6 +371,8 @@ def check_case(case):
         return check_raw_name(case['syntax'], case['name'], case['value'])
     if case['kind'] == 'multi':
         return check_multi(MULTI_DEFS[case['defn']], case['extra'], case['reverse'], case['repeat'])
+    if case['kind'] == 'malformed':
+        return [(c, d) for c, d, k in check_malformed() if k['table'] == case['table'] and k['abbr'] == case['abbr']]
     if case['kind'] == 'user':
         return check_user(case['table'], case['start'])[0]
     bad = check_builtin(case['syntax'], case['key'], None, case['context'], case['alias'], case['definition'], case['reverse'])
@@ -354,6 +386,8 @@ def repro(case):
         return 'from emmet.config import Config\nprint(Config({"syntax": %r}).snippets.get(%r))  # raw table lists this name\n' % (case['syntax'], case['name'])
     if case['kind'] == 'multi':
         return '# see check_multi in mc/props/c14.py: %r\n' % (case,)
+    if case['kind'] == 'malformed':
+        return 'from emmet import expand\nprint(expand(%r, {"snippets": %r}))  # must raise the parse error its definition raises\n' % (case['abbr'], case['table'])
     if case['kind'] == 'user':
         return 'from emmet import expand\nprint(expand(%r, {"snippets": %r}))\n' % (case['start'], case['table'])
     cfg = {'syntax': case['syntax']}
